@@ -3,7 +3,9 @@ package sim
 import (
 	"bytes"
 	"errors"
+	"fmt"
 	"io"
+	"io/fs"
 )
 
 // Simulated disk / network endpoints. They are the only I/O the library sees
@@ -12,6 +14,11 @@ import (
 
 var errInjectedRead = errors.New("dsim: injected read error")
 var errInjectedWrite = errors.New("dsim: injected write error")
+
+// errors a real transport hands out: end-of-file wrapped in context (still a failure: the caller
+// did not get its data), a path error around it
+var errWrappedEOF = fmt.Errorf("dsim: connection closed by peer: %w", io.EOF)
+var errWrappedUEOF = &fs.PathError{Op: "read", Path: "/dsim/simulated", Err: io.ErrUnexpectedEOF}
 var errNoSpace = errors.New("dsim: no space left on simulated device")
 
 type ReadFault struct {
@@ -53,6 +60,13 @@ func (r *simReader) Read(p []byte) (int, error) {
 		case "err", "err_n":
 			r.fired = true
 			r.done = errInjectedRead
+			return 0, r.done
+		case "err_weof", "err_wueof":
+			r.fired = true
+			r.done = errWrappedEOF
+			if r.fault.Kind == "err_wueof" {
+				r.done = errWrappedUEOF
+			}
 			return 0, r.done
 		case "eof":
 			if r.fault.At < len(r.data) {
